@@ -12,11 +12,11 @@ ALL = [f'C{i:02d}' for i in range(1, 19)]
 
 META = {
     'C01': ('exploration', '3 C01', 'generated inputs x configurations vs hashlib round-trip oracle (Hypothesis @given) + enumerated product sweep'),
-    'C02': ('exploration', '3 C02', 'model-based testing: generated operation histories vs dict reference model, all views compared after every step'),
+    'C02': ('exploration', '3 C02', 'model-based testing: generated operation histories (incl. failing caller streams with retry, reads nested inside iterations, lowered internal thresholds) vs dict reference model, all views compared after every step'),
     'C03': ('exploration', '3 C03', 'generated operation histories; invariant over the raw on-disk state read with sqlite3+zlib only (independent reader)'),
     'C04': ('exploration', '3 C04', 'generated schedules on a deterministic baton scheduler (threads yield at every file-system call / SQL statement) vs acknowledged-set oracle'),
-    'C05': ('fault_enumeration', '3 C05', 'generated (pre-state, operation) pairs x EVERY I/O event as kill point in a forked child (+ torn writes); raw reader + fresh handle oracle'),
-    'C06': ('fault_enumeration', '3 C06', 'as C05 with the power-loss image (every file reverted to its last fsynced content) built at every I/O event; plus sync-ordering monitor'),
+    'C05': ('fault_enumeration', '3 C05', 'generated (pre-state, same-handle warm-up calls, operation) cases x EVERY I/O event of the operation as kill point: the post-kill disk image is photographed before each event (+ torn writes), cross-checked against real fork+_exit kills; raw reader + fresh handle oracle'),
+    'C06': ('fault_enumeration', '3 C06', 'as C05 with the power-loss image (every file reverted to its last fsynced content, directory operations and committed transactions kept) built at every I/O event and after the call returned'),
     'C07': ('exploration', '3 C07', 'generated read/seek/tell programs in lock-step against an in-memory reference; exhaustive short programs'),
     'C08': ('exploration', '3 C08', 'model-based testing over multi-handle sequential histories with queries as steps vs dict model'),
     'C09': ('exploration', '3 C09', 'generated histories biased to repeated contents; raw-reader invariants on copies, unreferenced bytes and pack growth'),
@@ -25,10 +25,10 @@ META = {
     'C12': ('exploration', '3 C12', 'generated histories (no false positives) + generated and exhaustive single damages judged against read-back ground truth (no false negatives)'),
     'C13': ('exploration', '3 C13', 'generated multi-handle histories; before/after byte comparison of every pack file at every step'),
     'C14': ('exploration', '3 C14', 'generated source/destination containers and requests vs model + raw-row/pack-growth oracle'),
-    'C15': ('exploration', '3 C15', 'generated placements of concurrent client steps between/inside the phases of the real backup (real rsync) ; backup opened as a container vs model'),
+    'C15': ('exploration', '3 C15', 'generated placements of concurrent client steps between/inside the phases of the real backup (real rsync, full and incremental, incl. a previous backup of the same second); backup opened as a container vs model'),
     'C16': ('exploration', '3 C16', 'differential testing of bulk APIs under lowered thresholds vs single-key operations; exhaustive enumeration of merge helpers vs set algebra'),
-    'C17': ('fault_enumeration', '3 C17', 'generated (pre-state, operation) pairs x EVERY I/O event as injected OSError/OperationalError; raw reader + fresh handle + rerun oracle'),
-    'C18': ('exploration', '3 C18', 'generated histories with /proc/self/fd census; open-file counting during bulk reads; tracemalloc metamorphic size scaling'),
+    'C17': ('fault_enumeration', '3 C17', 'generated (pre-state, same-handle warm-up calls, operation) cases x EVERY I/O event as injected OSError/OperationalError (in-process fault injection); raw reader + fresh handle + rerun oracle'),
+    'C18': ('exploration', '3 C18', 'generated single- and multi-handle histories (incl. failing input streams and reads nested in iterations) with a collector-independent /proc/self/fd census; open-file counting during bulk reads; tracemalloc metamorphic size scaling'),
 }
 
 LEVEL_TEXT = {
